@@ -208,7 +208,13 @@ def check(case):
             same(lib("index", sg.__getitem__, k - n), k, "step %d sg[%d]" % (step, k - n))
             backward |= partial and last_pos is not None and k < last_pos
         elif kind == "slice":
-            lo, hi = (None if v is None else v % (2 * n + 5) - n - 2 for v in op[1:3])
+            edge = [-n - 1, -n, -n + 1, -1, 0, 1, n - 1, n, n + 1]
+
+            def bound(v):
+                if v is None:
+                    return None
+                return edge[(v // 3) % len(edge)] if v % 3 == 0 else v % (2 * n + 5) - n - 2      # a third: exactly at a boundary
+            lo, hi = bound(op[1]), bound(op[2])
             sl = slice(lo, hi, op[3])
             got = lib("slice", sg.__getitem__, sl)
             idx = list(range(n))[sl]
